@@ -203,6 +203,7 @@ func c17Run(ctx *core.Ctx, idx int, dotu bool, steps int) core.Result {
 	}
 	rw := &rawc{c: rc}
 	mtimes := map[string]bool{}
+	caseStart := time.Now().Unix()
 	// touched: the file's mtime becomes "now" on both sides (two different instants): it is no longer a set value,
 	// under any of its names
 	touched := func(f string) {
@@ -275,7 +276,48 @@ func c17Run(ctx *core.Ctx, idx int, dotu bool, steps int) core.Result {
 		mayFail := true // an Rerror is judged against the twin
 		noTwin := false // the request was refused for a reason POSIX knows nothing about: only "tree unchanged" is judged
 		fid := uint32(20)
-		switch k := r.Intn(14); k {
+		timesCheck := "" // "" | "atime-only" | "length+atime": extra judgement on modification times after the step
+		timesFile := ""
+		switch k := r.Intn(16); k {
+		case 14, 15: // wstat that sets the access time and leaves the modification time alone, alone or with a length
+			kind := "file"
+			if dotu && r.Intn(3) == 0 {
+				kind = "symlink"
+			}
+			f, ok := pick(kind)
+			if !ok {
+				continue
+			}
+			at := uint32(1000000000 + r.Intn(600000000))
+			st := noTouch()
+			st.Atime = at
+			if kind == "file" && r.Intn(2) == 0 {
+				fi, _ := os.Stat(filepath.Join(twin, f))
+				size := 0
+				if fi != nil {
+					size = int(fi.Size())
+				}
+				n := []int{0, size / 2, size + 7}[r.Intn(3)]
+				st.Length = uint64(n)
+				op, argc, timesCheck = "wstat-times", "length+atime", "length+atime"
+				touched(f)
+				if !walk(fid, f) {
+					continue
+				}
+				rep = rw.rpc(&wire.Msg{Type: wire.Twstat, Fid: fid, Stat: st})
+				perr = os.Truncate(filepath.Join(twin, f), int64(n))
+				if perr == nil {
+					perr = os.Chtimes(filepath.Join(twin, f), time.Unix(int64(at), 0), time.Time{})
+				}
+			} else {
+				op, argc, timesCheck = "wstat-times", "atime-only;"+kind, "atime-only"
+				if !walk(fid, f) {
+					continue
+				}
+				rep = rw.rpc(&wire.Msg{Type: wire.Twstat, Fid: fid, Stat: st})
+				perr = os.Chtimes(filepath.Join(twin, f), time.Unix(int64(at), 0), time.Time{}) // zero time: left as it is
+			}
+			timesFile = f
 		case 0, 1: // create a regular file (free name)
 			dir, _ := pick("dir")
 			name := freeName(dir)
@@ -596,6 +638,23 @@ func c17Run(ctx *core.Ctx, idx int, dotu bool, steps int) core.Result {
 			fail(fmt.Sprintf("success-but-posix-fails;%s;%s", op, argc), what+fmt.Sprintf(": answered %s, the corresponding POSIX operation fails: %v", wire.TypeName(rep.Type), perr))
 			_ = os.RemoveAll(twin)
 			_ = copyTree(e.root, twin)
+		}
+		if rep.Type != wire.Rerror && timesCheck == "atime-only" {
+			// nothing's modification time moves when only an access time is set
+			for k, b := range before {
+				if a, ok := after[k]; ok && a.mtime != b.mtime && b.kind != "symlink" {
+					fail("mtime-disturbed;"+argc, what+fmt.Sprintf(": the modification time of %q changed from %d to %d", k, b.mtime, a.mtime))
+					break
+				}
+			}
+		}
+		if rep.Type != wire.Rerror && timesCheck == "length+atime" {
+			// the truncation moves the modification time to now; leaving mtime alone in the same wstat does not undo that
+			if a, ok := after[timesFile]; ok {
+				if b := before[timesFile]; a.mtime == b.mtime && b.mtime < caseStart-5 {
+					fail("mtime-restored;"+argc, what+fmt.Sprintf(": %q was truncated but still carries its old modification time %d", timesFile, b.mtime))
+				}
+			}
 		}
 		if d := sameTree(after, snapshot(twin), mtimes); d != "" && len(res.Violations) == 0 {
 			fail(fmt.Sprintf("tree-differs;%s;%s", op, argc), what+": "+d)
